@@ -1433,7 +1433,14 @@ class Store:
             process_paths = dict_to_paths(root, processes)
             process_and_step_updates.extend(process_paths)
 
-            flow_paths = dict_to_paths(root, flow)
+            # report the flow of the daughter's own steps only (the
+            # mother's flow is the fallback even when the daughter's
+            # processes are given explicitly)
+            daughter_paths = {path for path, _ in process_paths}
+            flow_paths = [
+                (path, dependencies)
+                for path, dependencies in dict_to_paths(root, flow)
+                if path in daughter_paths]
             flow_updates.extend(flow_paths)
 
             topology_paths = [
